@@ -164,8 +164,9 @@ def run_chain(ctx, pydsdl, case, workdir):
     """
     A chain of definitions each holding `fanout` fields of the next one (fanout 2-3: the number of paths to the leaf doubles /
     triples per level, the number of definitions and statements does not).  Reading must end with a model or an
-    InvalidDefinitionError within a number of logical steps (PY_START + JUMP events in pydsdl code) linear in the number of
-    definitions; measured on the unchanged tree: < 2500 steps per definition, the budget allows 30000.
+    InvalidDefinitionError within a number of logical steps (PY_START + JUMP events in pydsdl code) polynomial in the number n of
+    definitions; measured on the unchanged tree: < 2500 n for nested readers and about 30 n**2 for a long chain read dependencies
+    first (every reference is looked up among all n definitions); the budget allows 30000 n + 100 n**2.
     """
     from pv.core import repo_root
     from pv.mon.symbolic import BudgetExceeded, SymbolicMonitor
@@ -176,22 +177,32 @@ def run_chain(ctx, pydsdl, case, workdir):
     root.mkdir(parents=True)
     n = case["chain"]
     fan = case.get("fanout", 1)
+    nsdepth = case.get("nsdepth", 0)
+    d = root.joinpath(*(["n"] * nsdepth))
+    d.mkdir(parents=True, exist_ok=True)
+    prefix = ".".join(["chain"] + ["n"] * nsdepth)
+    # order 'users-first': T000 uses T001 ... (every level is a nested reader); 'deps-first': T<n-1> uses T<n-2> ... so that every
+    # dependency sorts before its user and is cached when the user is read (no nesting of readers, only of types)
+    deps_first = case.get("order") == "deps-first"
     for i in range(n):
-        nxt = "".join("T%03d.1.0%s next%d\n" % (i + 1, "[<=2]" if case["array"] else "", k) for k in range(fan)) if i + 1 < n else "uint8 leaf\n"
-        (root / ("T%03d.1.0.dsdl" % i)).write_text(nxt + "@sealed\n")
+        j = i - 1 if deps_first else i + 1
+        last = i == 0 if deps_first else i + 1 >= n
+        nxt = "uint8 leaf\n" if last else "".join("%s.T%04d.1.0%s next%d\n" % (prefix, j, "[<=2]" if case["array"] else "", k) for k in range(fan))
+        (d / ("T%04d.1.0.dsdl" % i)).write_text(nxt + "@sealed\n")
+    first = d / ("T%04d.1.0.dsdl" % (n - 1 if deps_first else 0))
     ctx.mon("chain")
     if not _STEP_METER:
         _STEP_METER.append(SymbolicMonitor(pydsdl, repo_root() / "pydsdl"))
     mon = _STEP_METER[0]
     mon.reset()
-    mon.step_budget = 30000 * n + 400000
+    mon.step_budget = 30000 * n + 100 * n * n + 400000
     mon.steps_on()
     try:
         if case["api"] == "read_files":
-            fn = lambda: pydsdl.read_files([root / "T000.1.0.dsdl"], [root])  # noqa
+            fn = lambda: pydsdl.read_files([first], [root])  # noqa
         else:
             fn = lambda: pydsdl.read_namespace(root, [])  # noqa
-        return classify(ctx, pydsdl, fn, None, set(), "dependency chain of depth %d, fan-out %d" % (n, fan), case)
+        return classify(ctx, pydsdl, fn, None, set(), "dependency chain of depth %d, fan-out %d, namespace depth %d, %s" % (n, fan, nsdepth, case.get("order", "users-first")), case)
     except BudgetExceeded:
         ctx.violation("C13/non-termination/nesting", "reading a chain of %d definitions with %d fields of the next type each did not end within %d logical steps" % (
             n, fan, mon.step_budget), case)
@@ -280,15 +291,18 @@ def run_shard(ctx):
     for j in range(ctx.share(ctx.params["n_chains"])):
         if ctx.out_of_time():
             break
-        depth = rng.choice([3, 10, 30, 60, 80, 100, 150, 300])
-        case = {"chain": depth, "api": rng.choice(["read_namespace", "read_files"]), "array": rng.random() < 0.3, "fanout": rng.choice([1, 1, 2, 3])}
+        depth = rng.choice([3, 10, 30, 60, 80, 100, 150, 300, rng.randrange(40, 90), rng.randrange(40, 90)])
+        case = {"chain": depth, "api": rng.choice(["read_namespace", "read_files"]), "array": rng.random() < 0.3, "fanout": rng.choice([1, 1, 2, 3]),
+                "nsdepth": rng.choice([0, 0, 1, 5, 30, 60]), "order": rng.choice(["users-first", "users-first", "deps-first"])}
+        if case["order"] == "deps-first" and rng.random() < 0.3:
+            case["chain"] = depth = rng.choice([900, 1100])
         try:
             with ctx.watchdog(120):
                 out = run_chain(ctx, pydsdl, case, ctx.tmp)
         except CaseTimeout:
             ctx.inconclusive_case("watchdog", case)
             out = "timeout"
-        ctx.case(("chain", depth, case["api"], case["array"], case["fanout"]), True, classes=["kind-chain", "chain-depth-%d" % depth, "chain-fanout-%d" % case["fanout"], "chain-outcome-" + out.split(":")[0]])
+        ctx.case(("chain", depth, case["api"], case["array"], case["fanout"], case["nsdepth"], case["order"]), True, classes=["kind-chain", "chain-depth-%s" % (depth if depth in (3, 10, 30, 60, 80, 100, 150, 300, 900, 1100) else "40..89"), "chain-fanout-%d" % case["fanout"], "chain-nsdepth-%d" % case["nsdepth"], "chain-" + case["order"], "chain-outcome-" + out.split(":")[0]])
     # hostile file names
     for j in range(ctx.share(ctx.params["n_names"])):
         if ctx.out_of_time():
